@@ -1,0 +1,32 @@
+//go:build verif
+
+package discov
+
+import (
+	"fmt"
+
+	"github.com/zeromicro/go-zero/core/discov/internal"
+)
+
+// VerifSetEtcdClientFactory makes the discovery registry create its etcd clients
+// through factory (nil restores the real dialer). The returned value must implement
+// internal.EtcdClient. Only compiled with the verif build tag; used by
+// runtime-verification harnesses living outside this module.
+func VerifSetEtcdClientFactory(factory func(endpoints []string) (any, error)) {
+	if factory == nil {
+		internal.NewClient = internal.DialClient
+		return
+	}
+
+	internal.NewClient = func(endpoints []string) (internal.EtcdClient, error) {
+		v, err := factory(endpoints)
+		if err != nil {
+			return nil, err
+		}
+		cli, ok := v.(internal.EtcdClient)
+		if !ok {
+			return nil, fmt.Errorf("verif: %T does not implement EtcdClient", v)
+		}
+		return cli, nil
+	}
+}
